@@ -445,6 +445,17 @@ class C06(Prop):
         for vc in (0x00, 0x10, 0x20, 0x21, 0x22, 0x31):
             for afp in (0x00, 0x11, 0x13, 0x41):
                 pool.append(G.header(vc, afp, 12, bytes(12)))
+        # every byte string of length <= 2 (65 793 inputs): the first bytes decide between the two
+        # versions, so the whole space is cheap to enumerate through all three parsers
+        pool.append(b"")
+        for a in range(256):
+            pool.append(bytes([a]))
+            for b in range(256):
+                pool.append(bytes([a, b]))
+        # ... and every third byte after each two-byte prefix of the two signatures
+        for head in (b"PR", b"\r\n", b"P\r", b"\rP"):
+            for c in range(256):
+                pool.append(head + bytes([c]))
         ops = []
         for x in pool:
             ops.append("auto " + G.spec(x))
